@@ -64,7 +64,7 @@ def work(ctx, tier):
         ctx.inc("sweep_scenarios")
     n = (8000 if tier == "quick" else 200000) // ctx.nshards
     for k in range(n):
-        sc = gen.rand_scenario(rng, p_special=0.04, specials=("abort", "timeout", "nested_open"), p_budget=0.45, p_handler=0.35, p_abort=0.3, placements=(k % 4 == 0), p_abort_flag=0.25, p_exc_same=0.15, p_via_config=0.2, p_res_none=0.15, p_empty_table=0.06, falsy_objects=True, p_strategy_objects=0.3, poll_kinds=True, slow_hooks=(k % 3 == 1), rf_time=True, p_via_attrs=0.25)
+        sc = gen.rand_scenario(rng, p_special=0.04, p_attempt_timeout=0.12, specials=("abort", "timeout", "nested_open"), p_budget=0.45, p_handler=0.35, p_abort=0.3, placements=(k % 4 == 0), p_abort_flag=0.25, p_exc_same=0.15, p_via_config=0.2, p_res_none=0.15, p_empty_table=0.06, falsy_objects=True, p_strategy_objects=0.3, poll_kinds=True, slow_hooks=(k % 3 == 1), rf_time=True, p_via_attrs=0.25)
         for e in common.pick_entries(rng, rig.ENTRIES, 3):
             _one(ctx, sc, e, stats, sample=(k < 2 and ctx.shard == 0 and e.endswith("call")))
         ctx.inc("random_scenarios")
